@@ -86,103 +86,125 @@ def body(c):
     hists = [json.loads(s) for s in sorted(set(t[1] for t in g.tagged("REPLAY")))]
     if len(hists) != 21 ** n:
         raise vlib.ToolError("G produced %d histories, expected %d" % (len(hists), 21 ** n))
-    cases = []
-    for kind, cap in KINDS:
-        for i, h in enumerate(hists):
-            ops = [dict(o) for o in h]
-            for j, o in enumerate(ops):  # load_one is the same model operation as a one-key load_many
-                if o["op"] == "load" and len(o["ks"]) == 1 and (i + j) % 2 == 1:
-                    o["op"] = "load1"
-            cases.append({"id": len(cases) + 1, "src": "G", "kind": kind, "cap": cap, "mbs": [1000, 1, 2][i % 3], "keys": [1, 2],
-                          "types": ["a"], "holes": [], "ops": ops})
-    n_gen = len(cases)
-    # ---- seeded random histories: 3 keys, 2 key types, <= 40 operations, LRU capacities 1..3, keys unknown to the loader ---
+    hists3 = []
+    if not c.quick:  # LRU recency needs more keys than the capacity: 3 keys, LruCache(2), 3 operations
+        cfg3 = c.path("Gen3.cfg")
+        with open(cfg3, "w") as f:
+            f.write(consts([1, 2, 3], ["a"], "lru", 2, [], 3) + "INIT GInit\nNEXT GNext\nINVARIANT Emit\n")
+        g3 = vlib.run_tlc("conc/Gen_LoaderCache.tla", cfg3, workers=8, timeout=1800, keep_lines=50, xmx="8g")
+        c.add_tlc("G histories (3 keys, 3 operations)", g3)
+        hists3 = [json.loads(s) for s in sorted(set(t[1] for t in g3.tagged("REPLAY")))]
+        if len(hists3) != 34 ** 3:
+            raise vlib.ToolError("G produced %d 3-key histories, expected %d" % (len(hists3), 34 ** 3))
     rng = random.Random(c.seed)
-    for _ in range(3000 if c.quick else 60000):
-        kind, cap = rng.choice([("none", 1), ("map", 1), ("map", 1), ("lru", 1), ("lru", 2), ("lru", 2), ("lru", 3)])
-        keys = [1, 2, 3]
-        holes = [rng.choice(keys)] if rng.random() < 0.3 else []
-        cases.append({"id": len(cases) + 1, "src": "R", "kind": kind, "cap": cap, "mbs": rng.choice([1, 2, 3, 1000]), "keys": keys,
-                      "types": ["a", "b"], "holes": holes, "ops": random_history(rng, keys, ["a", "b"], rng.randint(1, 40))})
-    vlib.write_ndjson(c.path("cases.ndjson"), cases)
+    n_random = 3000 if c.quick else 60000
+
+    def all_cases():
+        cid = 0
+        for kind, cap, keys, hs in [(k, cap, [1, 2], hists) for k, cap in KINDS] + [("lru", 2, [1, 2, 3], hists3)]:
+            for i, h in enumerate(hs):
+                ops = [dict(o) for o in h]
+                for j, o in enumerate(ops):  # load_one is the same model operation as a one-key load_many
+                    if o["op"] == "load" and len(o["ks"]) == 1 and (i + j) % 2 == 1:
+                        o["op"] = "load1"
+                cid += 1
+                yield {"id": cid, "src": "G", "kind": kind, "cap": cap, "mbs": [1000, 1, 2][i % 3], "keys": keys,
+                       "types": ["a"], "holes": [], "ops": ops}
+        # seeded random histories: 3 keys, 2 key types, <= 40 operations, LRU capacities 1..3, keys unknown to the loader
+        for _ in range(n_random):
+            kind, cap = rng.choice([("none", 1), ("map", 1), ("map", 1), ("lru", 1), ("lru", 2), ("lru", 2), ("lru", 3)])
+            keys = [1, 2, 3]
+            holes = [rng.choice(keys)] if rng.random() < 0.3 else []
+            cid += 1
+            yield {"id": cid, "src": "R", "kind": kind, "cap": cap, "mbs": rng.choice([1, 2, 3, 1000]), "keys": keys,
+                   "types": ["a", "b"], "holes": holes, "ops": random_history(rng, keys, ["a", "b"], rng.randint(1, 40))}
 
     (binary,) = vlib.build_harness(["c29"])
-    p = vlib.run_harness(binary, [c.path("cases.ndjson"), c.path("trace.ndjson")], timeout=1800)
-    if p.returncode != 0:
-        raise vlib.ToolError("c29 harness failed: " + p.stderr[-2000:])
-    traces = vlib.read_ndjson(c.path("trace.ndjson"))
-    if len(traces) != len(cases):
-        raise vlib.ToolError("harness returned %d of %d cases" % (len(traces), len(cases)))
+    st = {"n": 0, "gen": 0, "hits": 0, "lru_hits": 0, "neg": False, "first_hit": None, "first_known": None, "last": None}
 
-    # negative controls: corrupt one logged value / drop a loader call; the reference must reject both
-    neg = []
-    for tr in traces:
-        if len(neg) == 2:
-            break
-        for i, (op, ob) in enumerate(zip(tr["ops"], tr["obs"])):
-            if op["op"] == "load" and ob["res"] and ob["calls"] and tr["kind"] == "map":
-                bad = json.loads(json.dumps(tr))
-                bad["id"] = -1 - len(neg)
-                if len(neg) == 0:
-                    bad["obs"][i]["res"][0]["v"] += 50
-                else:
-                    bad["obs"][i]["calls"] = []
-                neg.append(bad)
-                break
-    if len(neg) != 2:
-        raise vlib.ToolError("could not build negative controls")
+    def judge(chunk, k):
+        """harness + mode V + classification for one chunk of cases (bounded memory)"""
+        vlib.write_ndjson(c.path("cases.ndjson"), chunk)
+        p = vlib.run_harness(binary, [c.path("cases.ndjson"), c.path("trace.ndjson")], timeout=1800)
+        if p.returncode != 0:
+            raise vlib.ToolError("c29 harness failed: " + p.stderr[-2000:])
+        traces = vlib.read_ndjson(c.path("trace.ndjson"))
+        if len(traces) != len(chunk):
+            raise vlib.ToolError("harness returned %d of %d cases" % (len(traces), len(chunk)))
+        neg = []
+        if not st["neg"]:  # negative controls: corrupt one logged value / drop a loader call; the reference must reject both
+            for tr in traces:
+                if len(neg) == 2:
+                    break
+                for i, (op, ob) in enumerate(zip(tr["ops"], tr["obs"])):
+                    if op["op"] == "load" and ob["res"] and ob["calls"] and tr["kind"] == "map":
+                        bad = json.loads(json.dumps(tr))
+                        bad["id"] = -1 - len(neg)
+                        if len(neg) == 0:
+                            bad["obs"][i]["res"][0]["v"] += 50
+                        else:
+                            bad["obs"][i]["calls"] = []
+                        neg.append(bad)
+                        break
+            if len(neg) != 2:
+                raise vlib.ToolError("could not build negative controls")
+            st["neg"] = True
+        vlib.write_ndjson(c.path("trace_v.ndjson"), neg + traces)
+        v = vlib.run_tlc("conc/LoaderCacheTrace.tla", "conc/LoaderCacheTrace.cfg", env={"TRACE": c.path("trace_v.ndjson")}, workers=8,
+                         timeout=3000, keep_lines=50, xmx="12g")
+        verdicts = {t[1]: (t[2], t[3], t[4]) for t in v.tagged("VERDICT")}
+        c.notes.append("V chunk %d: %d histories judged in %.1fs" % (k, len(traces), v.wall))
+        if len(verdicts) != len(traces) + len(neg):
+            raise vlib.ToolError("V produced %d verdicts for %d cases" % (len(verdicts), len(traces) + len(neg)))
+        for x in neg:
+            if verdicts[x["id"]][0] != "violation":
+                raise vlib.ToolError("negative control %d was not rejected by the reference" % x["id"])
+        for tr in traces:
+            vd, at, at_dev = verdicts[tr["id"]]
+            key = {f: tr[f] for f in ("kind", "cap", "mbs", "holes", "ops", "obs")}
+            c.count_case(key, nontrivial=any(o["op"] in ("load", "load1", "peek") for o in tr["ops"]))
+            st["n"] += 1
+            st["gen"] += tr["src"] == "G"
+            tr["verdict"] = vd
+            if has_hit(tr):
+                st["hits"] += 1
+                st["lru_hits"] += tr["kind"] == "lru"
+                if st["first_hit"] is None and tr["kind"] == "lru":
+                    st["first_hit"] = tr
+            if vd.startswith("known:") and st["first_known"] is None:
+                st["first_known"] = tr
+            bad_i = at_dev if at_dev else at
+            c.verdict(vd, tr, "operation %s (%s) not admitted by the reference cache" %
+                      (bad_i, json.dumps(tr["ops"][bad_i - 1]) if 0 < bad_i <= len(tr["ops"]) else "?"))
+        st["last"] = traces[-1]
 
-    # ---- mode V ------------------------------------------------------------------------------------------------------------
-    verdicts = {}
-    batch = 120000
-    allrows = neg + traces
-    for b in range(0, len(allrows), batch):
-        part = c.path("trace_%d.ndjson" % (b // batch))
-        vlib.write_ndjson(part, allrows[b:b + batch])
-        v = vlib.run_tlc("conc/LoaderCacheTrace.tla", "conc/LoaderCacheTrace.cfg", env={"TRACE": part}, workers=8, timeout=3000,
-                         keep_lines=50, xmx="12g")
-        for t in v.tagged("VERDICT"):
-            verdicts[t[1]] = (t[2], t[3], t[4])
-        c.notes.append("V batch %d: %d histories judged in %.1fs" % (b // batch, len(allrows[b:b + batch]), v.wall))
-        if b // batch > 0:
-            os.remove(part)
-    if len(verdicts) != len(allrows):
-        raise vlib.ToolError("V produced %d verdicts for %d cases" % (len(verdicts), len(allrows)))
-    for x in neg:
-        if verdicts[x["id"]][0] != "violation":
-            raise vlib.ToolError("negative control %d was not rejected by the reference" % x["id"])
-
-    hits = lru_hits = known = 0
-    for tr in traces:
-        vd, at, at_dev = verdicts[tr["id"]]
-        key = {k: tr[k] for k in ("kind", "cap", "mbs", "holes", "ops", "obs")}
-        c.count_case(key, nontrivial=any(o["op"] in ("load", "load1", "peek") for o in tr["ops"]))
-        if has_hit(tr):
-            hits += 1
-            lru_hits += tr["kind"] == "lru"
-        known += vd.startswith("known:")
-        bad_i = at_dev if at_dev else at
-        c.verdict(vd, tr, "operation %s (%s) not admitted by the reference cache" %
-                  (bad_i, json.dumps(tr["ops"][bad_i - 1]) if 0 < bad_i <= len(tr["ops"]) else "?"))
-    if hits == 0 or lru_hits == 0:
-        raise vlib.ToolError("vacuity: no history observed a cache hit (all %d, lru %d)" % (hits, lru_hits))
-    c.cov["traces_validated_against_impl"] = len(traces)
-    c.cov["histories_with_cache_hit"] = hits
+    chunk, k = [], 0
+    for case in all_cases():
+        chunk.append(case)
+        if len(chunk) == 100000:
+            judge(chunk, k)
+            chunk, k = [], k + 1
+    if chunk:
+        judge(chunk, k)
+    if st["hits"] == 0 or st["lru_hits"] == 0:
+        raise vlib.ToolError("vacuity: no history observed a cache hit (all %d, lru %d)" % (st["hits"], st["lru_hits"]))
+    c.cov["traces_validated_against_impl"] = st["n"]
+    c.cov["histories_with_cache_hit"] = st["hits"]
     c.cov["exhaustive"] = True
     c.cov["rule"] = ("G: every sequence of exactly %d operations over the 21-letter alphabet {load of <=2 keys incl. duplicates and the "
                      "empty load, feed of 1-2 keys, clear, clear_one, enable_cache(b), enable_all_cache(b), get_cached_values} on 2 keys "
-                     "(TLC BFS with history variable, %d histories), each run on NoCache, HashMapCache, LruCache(1), LruCache(2) "
+                     "(TLC BFS with history variable, %d histories), each run on NoCache, HashMapCache, LruCache(1), LruCache(2)%s "
                      "(%d cases; shorter histories are prefixes, every operation is judged); plus %d seeded random histories of 1-40 "
                      "operations over 3 keys, 2 key types, LruCache(1..3), loads of 0-4 keys, keys unknown to the loader, "
                      "max_batch_size 1/2/3/1000; non-trivial = the history contains a load or get_cached_values; distinct by "
-                     "(configuration, operations, observations)" % (n, len(hists), n_gen, len(traces) - n_gen))
-    first_known = next((t for t in traces if verdicts[t["id"]][0].startswith("known:")), None)
-    first_hit = next((t for t in traces if t["kind"] == "lru" and has_hit(t)), None)
-    for x in (first_hit, first_known, traces[-1]):
+                     "(configuration, operations, observations)"
+                     % (n, len(hists), "; and every sequence of 3 operations over the 34-letter alphabet on 3 keys on LruCache(2)" if hists3 else "",
+                        st["gen"], st["n"] - st["gen"]))
+    for x in (st["first_hit"], st["first_known"], st["last"]):
         if x is not None:
             c.sample({"kind": x["kind"], "cap": x["cap"], "ops": [(o["op"], o["t"], o["ks"], o["b"]) for o in x["ops"]][:8],
-                      "obs": [{"res": [(r["k"], r["v"]) for r in o["res"]], "calls": [(k["n"], k["ks"]) for k in o["calls"]],
-                               "panic": o["panic"]} for o in x["obs"]][:8], "verdict": verdicts[x["id"]][0]})
+                      "obs": [{"res": [(r["k"], r["v"]) for r in o["res"]], "calls": [(q["n"], q["ks"]) for q in o["calls"]],
+                               "panic": o["panic"]} for o in x["obs"]][:8], "verdict": x["verdict"]})
     c.assumptions += ["the harness loader returns its call number as the value of every key it knows; feed values are >= 100, so a "
                       "cached value is never confused with a fresh one",
                       "operations are sequential: every spawned task and the (immediate) timer run to completion inside the operation "
